@@ -383,6 +383,9 @@ MORE_THM = {
         "removeFully_again_answers_notFound, clear_idempotent, spec_removals_idempotent). Index operations on two different "
         "keys commute on every healthy cache: same answers, same abstract cache, in either order "
         "(index_ops_on_different_keys_commute).",
+ "C10": " A listing never changes what the cache holds, in whole histories: deleting every listing and read from any history "
+        "of writes, removals, full removals and clear leaves the final abstract state unchanged "
+        "(listing_does_not_mutate_any_history, Lemmas/SpecLaws).",
  "C15": " HISTORY LEVEL (Props/C15x, Lemmas/SpecLaws): deleting every keyed read, lookup, by-address read and exists from any "
         "history on a healthy cache leaves every other answer and the final abstract cache unchanged "
         "(reads_do_not_mutate_any_history). PROGRAM LEVEL: every path argument of find / insert / delete for a key is its bucket path or that path's parent; "
